@@ -155,6 +155,11 @@ Apply(op, h) ==
     [] op \in {"tinyCt", "emptyCt"} -> [h EXCEPT !.ech.ct.ok = FALSE]     \* a payload shorter than an AEAD tag (5 bytes / none at all)
     [] op = "echTrailing" -> [h EXCEPT !.ech.trail = TRUE]                                 \* bytes appended after the payload inside the ECH extension
     [] op = "wrongInfo"   -> [h EXCEPT !.ech.ct.info = "c1b"]                              \* sealed to the same key under other config bytes
+    \* an enc that is a small-order X25519 point: the DH output is all zero whatever the private key, so the payload - sealed under the
+    \* context derived from an empty ("lowEncNil") or all-zero ("lowEncZero") DH output - was made without anybody's key; HPKE
+    \* (RFC 9180 7.1.4) has the recipient fail the decapsulation
+    [] op \in {"lowEncNil", "lowEncZero"} -> LET h1 == [h EXCEPT !.ech.enc = [to |-> "loworder", id |-> (IF op = "lowEncNil" THEN "e5" ELSE "e6")]]
+                                             IN [h1 EXCEPT !.ech.ct = [h.ech.ct EXCEPT !.enc = h1.ech.enc.id, !.aad = Aad(h1)]]
     [] op \in {"unlistedSuite", "otherCid"} -> h      \* (see ApplyK: needs the client's key)
     \* -- reasons for non-acceptance (C05)
     [] op = "noEch"       -> [h EXCEPT !.exts = DropAt(x, IdxT(x, "ech")), !.ech = NoEch]
@@ -215,7 +220,7 @@ NeedsEoe == {"eoeOdd", "eoeBadLen", "eoeNoData", "eoeEmptyList", "eoeRepeated", 
 NeedsEoe2 == {"eoeOutOfOrder"}
 NoEoeOps == {"eoeRefsSni"}
 Tampers == {"echTrailing", "swap1", "swapLast", "drop2", "addExt", "changeVal", "changeSid", "changeCid", "changeSuite", "otherEnc", "encToOther",
-            "truncEnc", "flipCt", "truncCt", "tinyCt", "emptyCt", "wrongInfo", "otherCid"}
+            "truncEnc", "flipCt", "truncCt", "tinyCt", "emptyCt", "wrongInfo", "otherCid", "lowEncNil", "lowEncZero"}
 PassOps == {"noEch", "grease", "no13", "noSv", "unlistedSuite"}
 \* the alert class each illegal hello must be answered with
 ClassOf(op) ==
